@@ -271,3 +271,12 @@ Example C12_throttle_example :
   map fst (snd (run_throttle_from conf empty (map (fun o => (o, (TBad, 0))) h))) =
   [TDone; TEarly 1 (Some 20); TNoOp; TEarly 1 (Some 1); TNoOp; TNoOp].
 Proof. vm_compute. reflexivity. Qed.
+
+Example C12_throttle_epoch_example :
+  let conf := {| t_type := RAbs; t_statuses := [429] |} in
+  let GET := [71; 69; 84] in let u := [97] in
+  let h := [(TResp 0 GET u 429 1 (Some 130) 100);    (* provider: retry at instant 130 *)
+            (TReq GET u 130); (TReq GET u 131)] in
+  map fst (snd (run_throttle_from conf empty (map (fun o => (o, (TBad, 0))) h))) =
+  [TDone; TEarly 1 (Some 130); TNoOp].
+Proof. vm_compute. reflexivity. Qed.
